@@ -9,8 +9,15 @@ open Tongo Tongo.Tl
 /-- fuel for decoding: far above any nesting depth the harness produces; exhaustion is reported as `fuel` -/
 def tlFuel : Nat := 4096
 
+/-- hex argument, tail-recursive (byte strings of 2^24 bytes travel through these lines) -/
+def hexArgBig (s : String) : Option (List UInt8) :=
+  if s == "-" then some [] else
+  match TlVal.readHex #[] s.toList with
+  | some (bs, []) => some bs
+  | _ => none
+
 def textArg (h : String) : Option String :=
-  (hexArg h).bind (fun bs => String.fromUTF8? (ByteArray.mk bs.toArray))
+  (hexArgBig h).bind (fun bs => String.fromUTF8? (ByteArray.mk bs.toArray))
 
 def schemaArg (h : String) : Option Schema := (textArg h).bind parse
 
@@ -61,7 +68,7 @@ def opsTl : List (String × Handler) := [
       | _, _, _ => "bad-op"
     | _ => "bad-op"),
   ("tl.dec", fun
-    | [sh, name, h] => match schemaArg sh, namedTy name, hexArg h with
+    | [sh, name, h] => match schemaArg sh, namedTy name, hexArgBig h with
       | some S, some t, some bs =>
         outcomeStr (decode S tlFuel t bs) (fun (v, r) => s!"ok {TlVal.print v} {hexOut r}")
       | _, _, _ => "bad-op"
@@ -77,7 +84,7 @@ def opsTl : List (String × Handler) := [
       | _, _ => "bad-op"
     | _ => "bad-op"),
   ("tl.fdec", fun
-    | [sh, f, h] => match schemaArg sh, hexArg h with
+    | [sh, f, h] => match schemaArg sh, hexArgBig h with
       | some S, some bs => match S.func? f with
         | some d => outcomeStr (decodeFields S tlFuel d.fields [] bs)
             (fun (vs, r) => s!"ok {TlVal.print (.tuple vs)} {hexOut r}")
@@ -102,14 +109,14 @@ def opsTl : List (String × Handler) := [
     | _ => "bad-op"),
   -- a client call answered with the given bytes
   ("tl.ans", fun
-    | [sh, f, h] => match schemaArg sh, hexArg h with
+    | [sh, f, h] => match schemaArg sh, hexArgBig h with
       | some S, some bs => outcomeStr (decodeAnswer S tlFuel f bs) (fun
           | .result v => s!"ok {TlVal.print v}"
           | .serverError vs => s!"lserr {TlVal.print (.tuple vs)}")
       | _, _ => "bad-op"
     | _ => "bad-op"),
   ("tl.reqdec", fun
-    | [sh, h] => match schemaArg sh, hexArg h with
+    | [sh, h] => match schemaArg sh, hexArgBig h with
       | some S, some bs => outcomeStr (requestDecoder S tlFuel bs) (fun
           | (tag, some (name, vs)) => s!"ok {hex8s tag} {name} {TlVal.print (.tuple vs)}"
           | (tag, none) => s!"ok {hex8s tag} Unknown")
